@@ -290,6 +290,20 @@ func regexDecompose(fc *FnCtx, pat string, subject Term) (*regexDecomp, error) {
 				ts = append(ts, t.S)
 			}
 			return T(SString, "(str.++ %s)", strings.Join(ts, " ")), nil
+		case syntax.OpQuest:
+			// (e)? with e capture-free inside: the group is exactly what the
+			// optional part matched (empty when it did not take part)
+			if c := n.Sub[0]; c.Op == syntax.OpCapture && !hasCapture(c.Sub[0]) {
+				l, err := reLang(n)
+				if err != nil {
+					return Term{}, err
+				}
+				x := fc.freshConst("rx", SString)
+				d.facts = append(d.facts, T(SBool, "(str.in_re %s %s)", x.S, l))
+				d.groups[c.Cap-1] = x
+				return x, nil
+			}
+			fallthrough
 		default:
 			// alternation / repetition containing groups: the node matches some
 			// x in its language; each inner group is empty or a substring of x
